@@ -17,17 +17,18 @@ ALL=0
 if [ "${1:-}" = "-a" ]; then ALL=1; shift; fi
 PAT="${1:-}"
 export GOFLAGS=-mod=mod GOPROXY=off GOSUMDB=off GOTOOLCHAIN=local
-WORK=/tmp/vsf-selftest
-ROOT=/tmp/vsf-selftest-root
+WORK="${VSF_WORK:-/tmp/vsf-selftest}"
+ROOT="$WORK-root"
+TAG="alt$(echo -n "$WORK" | md5sum | cut -c1-8)"
 rm -rf "$ROOT"; mkdir -p "$ROOT"
 cp "$HERE/KNOWN_FINDINGS.txt" "$ROOT/"
 git -C /repo worktree remove --force "$WORK" >/dev/null 2>&1
 rm -rf "$WORK"
 git -C /repo worktree add --detach "$WORK" HEAD >/dev/null 2>&1 || { echo "cannot create worktree"; exit 2; }
-trap 'git -C /repo worktree remove --force "$WORK" >/dev/null 2>&1; rm -rf "$WORK" "$ROOT" "$HERE"/.build/bin/vcheck-alt* "$HERE"/.build/alt*; git -C /repo worktree prune' EXIT
+trap 'git -C /repo worktree remove --force "$WORK" >/dev/null 2>&1; rm -rf "$WORK" "$ROOT" "$HERE"/.build/bin/vcheck-$TAG* "$HERE"/.build/$TAG.* "$HERE"/.build/build-$TAG*; git -C /repo worktree prune' EXIT
 ALLPROPS="C01 C02 C03 C04 C05 C06 C07 C08 C09 C10 C11 C12 C13 C14 C15 C16 C17 C18 C19"
 OUT="$HERE/selftest/RESULTS.tsv"
-[ -z "$PAT" ] && [ $ALL -eq 1 ] && : > "$OUT.new"
+: > "$OUT.new"
 printf "%-58s %-6s %-14s %s\n" "mutant" "suite" "expected" "checks that fired"
 for patch in "$HERE"/selftest/mutants/*.patch "$HERE"/seeded/*/patch.diff; do
   [ -f "$patch" ] || continue
@@ -53,7 +54,7 @@ for patch in "$HERE"/selftest/mutants/*.patch "$HERE"/seeded/*/patch.diff; do
   [ -z "$expected" ] && verdict="-"
   if [ "$expected" = NONE ]; then if [ -z "$fired" ]; then verdict="silent-ok"; else verdict="FALSE-ALARM"; fi; fi
   printf "%-58s %-6s %-14s %s  [%s]\n" "$name" "$suite" "$expected" "${fired:- none}" "$verdict"
-  [ -z "$PAT" ] && [ $ALL -eq 1 ] && printf "%s\t%s\t%s\t%s\t%s\n" "$name" "$suite" "$expected" "${fired# }" "$verdict" >> "$OUT.new"
+  printf "%s\t%s\t%s\t%s\t%s\n" "$name" "$suite" "$expected" "${fired# }" "$verdict" >> "$OUT.new"
 done
-[ -f "$OUT.new" ] && mv "$OUT.new" "$OUT"
+if [ -z "$PAT" ]; then mv "$OUT.new" "$OUT"; else rm -f "$OUT.new"; fi
 exit 0
